@@ -165,7 +165,7 @@ def stepSession (cx : Ctx) (tc : TapCtx) (e : IEnv) : M IEnv :=
           if e.sigscriptExecuted && !e.sigscriptPushonly then fail .SIG_PUSHONLY
           else
           match e.p2shStack.getLast? with
-          | none => .error (.abnormal "assert(!stack.empty())")
+          | none => fail .INVALID_STACK_OPERATION        -- the saved stack is empty (`exec` supplied the hashed item)
           | some redeem =>
             pure { e with isP2sh := false,
                           see := { e.see with stack := e.p2shStack.dropLast, script := redeem, pbegincodehash := redeem, nOpCount := 0,
@@ -173,6 +173,7 @@ def stepSession (cx : Ctx) (tc : TapCtx) (e : IEnv) : M IEnv :=
                           pc := redeem, currOpSeq := e.currOpSeq + 1 }
         else fail .BAD_OPCODE
     else if !e.successor.isEmpty then
+      if e.successor.length > Gen.MAX_SCRIPT_SIZE then fail .SCRIPT_SIZE else
       let script := e.successor
       let isp := p2shPattern e.see.flags script
       pure { e with sigscriptExecuted := true, sigscriptPushonly := isPushOnly e.see.script,
